@@ -387,6 +387,26 @@ theorem jump_resumed_by_module_restart (H : Hist) {B S : Nat} (n n' : Node) (P :
     restartSync H B S n.db = .ok n' := by
   simp [restartSync, hrec, hsp, hlow, hhdr, htrie, hblk, hjump]
 
+/-- **jump_resumable_synced_restart** — the empty prefix with every hypothesis discharged: a crash right BEFORE the
+first jump batch, on the node the state-sync module leaves (any content, page size, MaxTraceableBlocks, sync point
+`0 < P < n` headers). That database reopens to the synced node itself (`syncedNode_recover`), and the state-sync
+module's restart (`restartSync` = recover + Module.Init: headers, trie and block of the recorded sync point are there,
+the chain is below it) performs the pending jump and ends in exactly the node of the uninterrupted jump. -/
+theorem jump_resumable_synced_restart (H : Hist) {B S : Nat} (hB : 1 < B) (P n : Nat) (hP0 : 0 < P) (hP : P < n) :
+    recover H B S (syncedNode H B P n).db = .ok (syncedNode H B P n) ∧
+    ∃ (bs : List Batch) (n' : Node), jump H (syncedNode H B P n) P = .ok (bs, n') ∧
+      restartSync H B S (syncedNode H B P n).db = .ok n' := by
+  obtain ⟨hr, hsp, _⟩ := syncedNode_ready H hB P n hP
+  obtain ⟨bs, n', hj⟩ := jump_ok_of_ready hr
+  have hrec := syncedNode_recover (S := S) H hB P n hP0 hP
+  obtain ⟨hi, _, hhd, hh0⟩ := headersNode_spec H hB n (by omega)
+  have hh : (syncedNode H B P n).height = 0 := hh0
+  have hhdr : (syncedNode H B P n).hdrHeight = n := hhd
+  obtain ⟨it, hit⟩ := hr.tri
+  refine ⟨hrec, bs, n', hj, ?_⟩
+  exact jump_resumed_by_module_restart H _ n' P bs hrec hsp (by rw [hh]; exact hP0) (by rw [hhdr]; exact hP)
+    (by rw [hit]; rfl) hr.blk hj
+
 /-- chain content for the jump witnesses: MaxTraceableBlocks = 2. -/
 def Hj : Hist :=
   { ntx := fun _ => 1, confl := fun _ => [], eff := fun h => [(h % 2, some h)], touched := fun _ => [0],
@@ -630,7 +650,7 @@ theorem stage_constants_tied :
 /-- the garbage collector's constants and the order of its four passes (tryRunGC's guarded body), which `gcRun`
 mirrors: transfers, MPT (both `gcSel`), untraceable blocks, header-hash pages. -/
 theorem gc_constants_tied :
-    pagesCache = Generated.Stages.pagesCache ∧ Generated.Stages.blockTimesCache = 8 ∧
+    pagesCache = Generated.Stages.pagesCache ∧ timesCache = Generated.Stages.blockTimesCache ∧
     Generated.Stages.gcCallOrder = ["removeOldTransfers", "GC", "removeUntraceableBlocks", "removeOldHeaderHashes"] := by
   decide
 
